@@ -256,7 +256,7 @@ func checkWishart2(t *vlib.T, nu float64) {
 		det := x.At(0, 0)*x.At(1, 1) - x.At(0, 1)*x.At(1, 0)
 		if !(x.At(0, 0) > 0 && x.At(1, 1) > 0 && det >= -1e-10*x.At(0, 0)*x.At(1, 1)) {
 			if bad == 0 {
-				r.fail("Wishart.Rand-PD", fmt.Sprint(src.idx), "X=%v", mat.Formatted(&x))
+				r.fail("Wishart.Rand-PD", fmt.Sprint(src.idx), "X=%v", x.RawSymmetric().Data)
 			}
 			bad++
 			return false
@@ -816,7 +816,7 @@ func checkMHmv(t *vlib.T, burn, rate int) {
 				}
 			}
 			if !okAll {
-				r.fail("MetropolisHastingser=definition", arg, "batch=%v differs from the chain defined by the same proposals and acceptance draws", mat.Formatted(batch))
+				r.fail("MetropolisHastingser=definition", arg, "batch=%v differs from the chain defined by the same proposals and acceptance draws", batch.RawMatrix().Data)
 			}
 			if init[0] != 0.1 || init[1] != 0.2 {
 				r.fail("MetropolisHastingser-Initial", arg, "Initial changed to %v", init)
